@@ -23,6 +23,7 @@ CONSTANTS Masks,        \* indices into MaskTab
           ArbTokLen,    \* arbitrary tokens up to this length (against issued cookies)
           ArbPairLen,   \* arbitrary cookie x arbitrary token pairs up to this length each
           Carriers,     \* subset of {"form", "xsrfheader", "csrfheader"}
+          Handlers,     \* subset of {"plain", "stream"}: ordinary handler / @stream_request_body handler
           Methods       \* subset of {"POST", "PUT", "DELETE", "PATCH", "GET", "HEAD", "OPTIONS"}
 
 PIPE == 124
@@ -118,15 +119,17 @@ TokensFor(ck) ==
 CookieInit ==
     \E ck \in CookiesOf :
       /\ sc = [mode |-> "cookie", cookie |-> ck, token |-> Tag("none", <<>>), carrier |-> "none", method |-> "none",
-               iss |-> <<>>]
+               handler |-> "plain", iss |-> <<>>]
       /\ exp = [status |-> 0, ran |-> FALSE, token |-> <<>>, setcookie |-> <<>>]
 
 Post ==
     /\ sc.mode = "cookie"
-    /\ \E tk \in TokensFor(sc.cookie), ca \in Carriers, me \in Methods :
+    /\ \E tk \in TokensFor(sc.cookie), ca \in Carriers, me \in Methods, hd \in Handlers :
+         \* a streaming handler is checked before any body is read: header carriers, representative tokens
+         /\ (hd = "stream" => (ca # "form" /\ me = "POST" /\ tk.kind \in {"issued", "other", "empty"} /\ sc.cookie.kind # "mut"))
          /\ (me # "POST" => (ca = "form" /\ tk.kind \in {"issued", "other"}))      \* other methods: a representative subset
          /\ (ca # "form" => sc.cookie.kind # "arb")                                 \* arbitrary pairs: form field only
-         /\ sc' = [sc EXCEPT !.mode = "post", !.token = tk, !.carrier = ca, !.method = me]
+         /\ sc' = [sc EXCEPT !.mode = "post", !.token = tk, !.carrier = ca, !.method = me, !.handler = hd]
          /\ LET o == Outcome(sc.cookie.s, tk.s, me) IN
             exp' = [status |-> o.status, ran |-> o.ran, token |-> <<>>, setcookie |-> <<>>]
 
